@@ -105,7 +105,7 @@ impl Definition {
                     parser
                         .err(
                             "Callback has been already set",
-                            span.join(name.span()).unwrap(),
+                            span.join(name.span()).unwrap_or(span),
                         )
                         .err("Previous callback set here", previous.span());
                 }
